@@ -354,8 +354,8 @@ func replayPackage(ld *Loaded, fn *ssa.Function) (dir string, pkg *types.Package
 }
 
 type realOutput struct {
-	Panic   string   `json:"panic"`
-	Results []string `json:"results"` // one per flattened result: decimal ints, "nil"/"err", hex:.. for bytes
+	Panic   string            `json:"panic"`
+	Results []string          `json:"results"` // one per flattened result: decimal ints, "nil"/"err", hex:.. for bytes
 	Post    map[string]string `json:"post"`
 }
 
